@@ -3,7 +3,7 @@
    <= sfuel = 100 levels. *)
 From Coq Require Import List Arith Bool PArith Lia.
 Import ListNotations.
-From GM Require Import Model.StopLife Proofs.FiniteSys Proofs.ConnLifeP.
+From GM Require Import Gen.StopOrder Model.StopLife Proofs.FiniteSys Proofs.ConnLifeP.
 
 Definition scode (s : sst) : positive := enc (sfields s).
 
@@ -195,3 +195,157 @@ Theorem stop_terminates_both :
   (forall expire s, sreachable expire s -> ends_in snext (fun s => both_returned s = true) s) /\
   (forall s, sreachable false s -> ends_in snext (fun s => nil_end s = true) s).
 Proof. exact (conj stop_terminates stop_returns_nil). Qed.
+
+(* ---------------------------------------------------------------- the order of the operations in the source *)
+
+(* Gen/StopOrder.v is the sequence of operations of the body of stopOnce.Do in source order. *)
+
+Definition op_code (o : stop_op) : nat :=
+  match o with
+  | SDeferCloseExited => 0 | SExit => 1 | SCloseListeners => 2 | SShutdownWebsockets => 3 | SLock => 4
+  | SSnapshotCloseClients => 5 | SUnlock => 6 | SStartWaiter => 7 | SWait => 8 | SUnload => 9 | SOnStop => 10
+  end.
+
+Lemma op_code_inj a b : op_code a = op_code b -> a = b.
+Proof. destruct a, b; cbn; intros H; try reflexivity; discriminate. Qed.
+
+Definition op_eqb (a b : stop_op) : bool := Nat.eqb (op_code a) (op_code b).
+
+(* split l at the first occurrence of a *)
+Fixpoint split_at (a : stop_op) (l : list stop_op) : option (list stop_op * list stop_op) :=
+  match l with
+  | [] => None
+  | x :: tl => if op_eqb x a then Some ([], tl)
+               else match split_at a tl with Some (l1, l2) => Some (x :: l1, l2) | None => None end
+  end.
+
+Lemma split_at_spec a : forall l l1 l2, split_at a l = Some (l1, l2) -> l = l1 ++ a :: l2.
+Proof.
+  induction l as [|x tl IH]; intros l1 l2 H; cbn in H; [discriminate|].
+  destruct (op_eqb x a) eqn:E.
+  - inversion H; subst. apply Nat.eqb_eq in E. apply op_code_inj in E. now subst.
+  - destruct (split_at a tl) as [[m1 m2]|] eqn:S; [|discriminate]. inversion H; subst.
+    cbn. f_equal. now apply IH.
+Qed.
+
+(* a occurs before b in l *)
+Definition before (a b : stop_op) (l : list stop_op) : Prop :=
+  exists l1 l2 l3, l = l1 ++ a :: l2 ++ b :: l3.
+
+Definition beforeb (a b : stop_op) (l : list stop_op) : bool :=
+  match split_at a l with
+  | Some (_, r) => match split_at b r with Some _ => true | None => false end
+  | None => false
+  end.
+
+Lemma beforeb_spec a b l : beforeb a b l = true -> before a b l.
+Proof.
+  unfold beforeb, before. destruct (split_at a l) as [[l1 r]|] eqn:S1; [|discriminate].
+  destruct (split_at b r) as [[l2 l3]|] eqn:S2; [|discriminate]. intros _.
+  apply split_at_spec in S1. apply split_at_spec in S2. exists l1, l2, l3. now subst.
+Qed.
+
+Definition count_op (a : stop_op) (l : list stop_op) : nat := List.length (filter (op_eqb a) l).
+
+Definition all_ops : list stop_op :=
+  [SDeferCloseExited; SExit; SCloseListeners; SShutdownWebsockets; SLock; SSnapshotCloseClients; SUnlock;
+   SStartWaiter; SWait; SUnload; SOnStop].
+
+(* the required order, as pairs (earlier, later) *)
+Definition required_order : list (stop_op * stop_op) :=
+  [ (SDeferCloseExited, SExit);            (* the deferred close(exitedChan) is registered first: it runs on every return *)
+    (SExit, SSnapshotCloseClients);        (* no new accept loops ... *)
+    (SCloseListeners, SSnapshotCloseClients);      (* ... and no new connections before the clients are listed *)
+    (SShutdownWebsockets, SSnapshotCloseClients);
+    (SLock, SSnapshotCloseClients); (SSnapshotCloseClients, SUnlock);   (* the snapshot is taken under srv.mu *)
+    (SUnlock, SStartWaiter); (SStartWaiter, SWait); (SUnlock, SWait);   (* the wait is outside srv.mu *)
+    (SWait, SUnload); (SUnload, SOnStop) ].                             (* plugins and OnStop after the wait *)
+
+Definition stop_order_okb : bool :=
+  forallb (fun o => Nat.eqb (count_op o stop_ops) 1) all_ops
+  && forallb (fun p => beforeb (fst p) (snd p) stop_ops) required_order.
+
+Lemma stop_order_okb_ok : stop_order_okb = true.
+Proof. vm_compute. reflexivity. Qed.
+
+Theorem stop_order :
+  (forall o, count_op o stop_ops = 1) /\
+  (forall a b, In (a, b) required_order -> before a b stop_ops).
+Proof.
+  pose proof stop_order_okb_ok as H. unfold stop_order_okb in H. apply andb_true_iff in H as [H1 H2].
+  split.
+  - intros o. rewrite forallb_forall in H1. apply Nat.eqb_eq. apply H1. destruct o; cbn; auto 12.
+  - intros a b Hin. rewrite forallb_forall in H2. apply beforeb_spec. exact (H2 (a, b) Hin).
+Qed.
+
+(* the readable core of it *)
+Corollary stop_order_core :
+  before SExit SSnapshotCloseClients stop_ops /\ before SCloseListeners SSnapshotCloseClients stop_ops /\
+  before SShutdownWebsockets SSnapshotCloseClients stop_ops /\
+  before SLock SSnapshotCloseClients stop_ops /\ before SSnapshotCloseClients SUnlock stop_ops /\
+  before SUnlock SWait stop_ops /\ before SWait SUnload stop_ops /\ before SUnload SOnStop stop_ops.
+Proof.
+  destruct stop_order as [_ H]. repeat split; apply H; cbn; auto 15.
+Qed.
+
+(* the model's order IS the source's order: mapping every operation to the program counter of
+   Model/StopLife.v that stands for it and merging equal neighbours gives exactly owner_phases *)
+Definition phase (o : stop_op) : option nat :=
+  match o with
+  | SDeferCloseExited => None
+  | SExit | SCloseListeners | SShutdownWebsockets => Some O1
+  | SLock | SSnapshotCloseClients | SUnlock => Some O2
+  | SStartWaiter | SWait => Some O3
+  | SUnload => Some O4
+  | SOnStop => Some O5
+  end.
+
+Fixpoint phases (l : list stop_op) : list nat :=
+  match l with
+  | [] => []
+  | o :: tl => match phase o with
+               | None => phases tl
+               | Some p => match phases tl with
+                           | q :: r => if Nat.eqb p q then q :: r else p :: q :: r
+                           | [] => [p]
+                           end
+               end
+  end.
+
+Theorem stop_order_is_model_order : phases stop_ops = owner_phases.
+Proof. vm_compute. reflexivity. Qed.
+
+(* and the model's owner does go through owner_phases in this order *)
+Lemma owner_follows_phases : forall a s s', In s' (step_caller a s) ->
+  (caller a s = O1 -> caller a s' = O2) /\
+  (caller a s = O2 -> caller a s' = O3) /\
+  (caller a s = O3 -> caller a s' = O4 \/ caller a s' = O7) /\
+  (caller a s = O4 -> caller a s' = O5 /\ unl s' = S (unl s)) /\
+  (caller a s = O5 -> caller a s' = O6 /\ ons s' = S (ons s)).
+Proof.
+  intros a s s' Hin. unfold step_caller in Hin.
+  split; [|split; [|split; [|split]]]; intros Hc; rewrite Hc in Hin; cbn in Hin.
+  - destruct Hin as [<-|[]]. destruct a; reflexivity.
+  - destruct Hin as [<-|[]]. destruct a; reflexivity.
+  - apply in_app_or in Hin as [Hin|Hin].
+    + destruct ((negb (w1 s) || Nat.eqb (k1 s) 3) && (negb (w2 s) || Nat.eqb (k2 s) 3)); cbn in Hin; [|contradiction].
+      destruct Hin as [<-|[]]. left. destruct a; reflexivity.
+    + destruct (ctx_may_expire s); cbn in Hin; [|contradiction].
+      destruct Hin as [<-|[]]. right. destruct a; reflexivity.
+  - destruct Hin as [<-|[]]. destruct a; split; reflexivity.
+  - destruct Hin as [<-|[]]. destruct a; split; reflexivity.
+Qed.
+
+(* the listeners are closed (O1) before the snapshot (O2) in the model as well: a state in which the
+   owner is past O1 has no open listener *)
+Definition listeners_closed_inv (s : sst) : bool :=
+  let past (pc : nat) := negb (Nat.eqb pc C0) && negb (Nat.eqb pc O1) && negb (Nat.eqb pc C8) && negb (Nat.eqb pc C9) in
+  negb (past (cA s) || past (cB s)) || negb (lst s).
+
+Lemma listeners_closed_ok : all2 (fun b => invb_of listeners_closed_inv (sreach b)) = true.
+Proof. vm_compute. reflexivity. Qed.
+
+Theorem stop_order_all :
+  ((forall o, count_op o stop_ops = 1) /\ (forall a b, In (a, b) required_order -> before a b stop_ops)) /\
+  phases stop_ops = owner_phases.
+Proof. exact (conj stop_order stop_order_is_model_order). Qed.
